@@ -974,6 +974,7 @@ def check_C01(ctx):
         # table index panic sites on the real-card path (needed for the value to be returned at all)
         discharge_residual_obligations(ctx, fac, "C01.panic-site", max_ranks=5, PR=tabs[2] if tabs else None)
     premise_entry(ctx, "E", sizes=((FIVE, 5),))
+    ctx.guard("E.rank", rank_carries_value, ctx, "E", ((FIVE, 5),))
     # validated ranking of five distinct real cards takes the ranking edge: is_valid is true there (V, short form)
     ctx.guard("V.five", premise_unique, ctx, FIVE, 5, "V.are_unique")
     # ... and the entry points themselves return: their own panic sites (outside the ranking proper, which the
@@ -1002,6 +1003,22 @@ def rank_wiring(ctx, rule, sizes, pairs):
                 exp = substitute(frm, lambda nd: x if nd is v else None)
                 ok = exp is s_.ret
             rep.ob(rule, "%s::%s" % (short(path), meth), ok, "%s() must be HandRank::from(%s()) of the same hand" % (meth, inner), pdb.where(key))
+
+
+def rank_carries_value(ctx, rule, sizes, field="value", want=None):
+    """`hand_rank()` of a hand is `HandRank::from(hand_rank_value())` of the same hand, and that conversion stores its
+    argument unchanged in the field the property reads (`value`; for the name, the name function of the same value is
+    C06's wiring).  Needed wherever a property observes the value or the name *through* hand_rank()."""
+    rep, pdb = ctx.rep, ctx.pdb
+    HRANK = "hand_rank::HandRank"
+    rank_wiring(ctx, rule + ".rank-is-conversion-of-value", sizes, (("hand_rank", "hand_rank_value"),))
+    kf = pdb.trait_impl("core::convert::From", HRANK, ["u16"])["items"]["from"]
+    ctx.check_shadow(HRANK, "from", "core::convert::From", kf, None)
+    v = atom("v", "u16")
+    r = ctx.summ(kf, [("v", v)]).ret
+    fields = [f["name"] for f in pdb.adt(HRANK)["variants"][0]["fields"]]
+    ok = r[0] == "agg" and field in fields and r[2][fields.index(field)] is (v if want is None else want)
+    rep.ob(rule + ".conversion-keeps-value", "HandRank::from(v).%s" % field, ok, "HandRank::from(v).%s is not %s" % (field, "v" if want is None else "determine_%s(v)" % field), pdb.where(kf))
 
 
 def entry_totality(ctx, rule, sizes, fac):
@@ -1408,7 +1425,10 @@ def check_C13(ctx):
             from .misc import name_class_dags, check_value_table
             v, kn, kc, dn, dc = name_class_dags(ctx)
             check_value_table(ctx, "C13.name-table", kn, dn, oracle.category_of, "determine_name")
+            # ... and hand_rank().name of a Five is that name of the value the ranking returns
+            rank_carries_value(ctx, "E", ((FIVE, 5),), field="name", want=dn)
         ctx.guard("C13.name-table", names)
+        value_wiring(ctx, "E", sizes=((FIVE, 5),))
 
 
 def mask_ranks(m):
@@ -2242,7 +2262,9 @@ def check_C02(ctx):
     fac = ctx.guard("F", premise_factor, ctx)
     if fac and tabs:
         ctx.guard("R", premise_residual, ctx, fac, tabs[2])
-    premise_entry(ctx, "E", sizes=((FIVE, 5), (SIX, 6), (SEVEN, 7)))
+    # the entry points C02 observes: hand_rank_value() and hand_rank() (the validated variants are C04's)
+    value_wiring(ctx, "E", sizes=((FIVE, 5), (SIX, 6), (SEVEN, 7)))
+    ctx.guard("E.rank", rank_carries_value, ctx, "E", ((SIX, 6), (SEVEN, 7)))
     ctx.guard("C02.entry-no-panic", entry_totality, ctx, "C02.entry-no-panic", ((SIX, 6), (SEVEN, 7)), None)
 
 
@@ -2254,7 +2276,7 @@ def check_C09(ctx):
         rep.ob("C09.same-ranking", "Six/Seven", a["callee"] == b["callee"], "Six and Seven rank their candidates with different functions", "")
     # the five-card value is slot-symmetric (so a sub-hand's value does not depend on who selected it)
     fac = ctx.guard("F", premise_factor, ctx)
-    premise_entry(ctx, "E", sizes=((FIVE, 5), (SIX, 6), (SEVEN, 7)))
+    value_wiring(ctx, "E", sizes=((FIVE, 5), (SIX, 6), (SEVEN, 7)))
 
 
 def check_C03(ctx):
